@@ -11,8 +11,10 @@ Matches(x, o) == IF x.t = "double" /\ o.t = "double" /\ x.c = "nan" THEN o.c = "
 EventOK(e) == LET x == Expected(e) IN IsIndef(x) \/ Matches(x, e.out)
 Init == i = 1 /\ TLCSet(1, <<>>) /\ TLCSet(2, 0)
 Next == /\ i <= Len(Trace) /\ i' = i + 1
-        /\ IF EventOK(Trace[i]) THEN (IF IsIndef(Expected(Trace[i])) THEN TLCSet(2, TLCGet(2) + 1) ELSE TRUE)
-           ELSE TLCSet(1, Append(TLCGet(1), <<i, Expected(Trace[i])>>))
+        /\ LET x == Expected(Trace[i]) IN
+           IF IsIndef(x) THEN TLCSet(2, TLCGet(2) + 1)
+           ELSE IF Matches(x, Trace[i].out) THEN TRUE
+           ELSE TLCSet(1, Append(TLCGet(1), <<i, x>>))
 Post == /\ PrintT(<<"REJECTED", TLCGet(1)>>)
         /\ PrintT(<<"CONSUMED", TLCGet("stats").diameter - 1, Len(Trace), TLCGet(2)>>)
 =============================================================================
